@@ -1,8 +1,9 @@
 (* lal pkg/remux/rtmp2mpegts_filter__timestamp.go: Rtmp2MpegtsTimestampFilter.
    One base per track (the DTS of the first frame of the track, the sentinel
-   math.MaxUint64 = "not set yet"); a later DTS that is not below the base is
-   rebased, a DTS BELOW the base is left as it is (only a warning is logged);
-   PTS is recomputed as DTS + 90 * CTS in uint64.  No proofs here. *)
+   math.MaxUint64 = "not set yet"); every later DTS is rebased: DTS - base, and
+   for a DTS BELOW the base (clock restart, 32-bit wrap of the RTMP time stamp)
+   2^33 - (base - DTS) mod 2^33, i.e. the same distance on the 33-bit clock of
+   MPEG-TS.  PTS is recomputed as DTS + 90 * CTS in uint64.  No proofs here. *)
 From Lal Require Import Common.LBytes.
 Open Scope N_scope.
 
@@ -17,8 +18,20 @@ Record tsfilter := mk_tsfilter { tf_abase : N; tf_vbase : N }.
 
 Definition tsfilter_init : tsfilter := mk_tsfilter max_u64 max_u64.
 
+Definition ts_clock : N := 8589934592.   (* mpegtsClockModulus = 2^33 *)
+
+(* rebaseDts(dts, base): a dts below the base keeps its distance to the base on
+   the 33-bit clock (lal fix "keeps a dts below the first one of its track ...") *)
+Definition rebase_dts (dts base : N) : N :=
+  if dts <? base then (ts_clock - (base - dts) mod ts_clock) mod ts_clock else dts - base.
+
 (* one track: the new base and the rebased dts *)
 Definition rebase (base dts : N) : N * N :=
+  let base' := if base =? max_u64 then dts else base in
+  (base', rebase_dts dts base').
+
+(* the pinned tree: a dts below the base was left as it was (F-23) *)
+Definition rebase_pinned (base dts : N) : N * N :=
   let base' := if base =? max_u64 then dts else base in
   (base', if dts <? base' then dts else dts - base').
 
